@@ -4,6 +4,8 @@ CONSTANTS
   Patience = 3
   LateAfter = 0
   InlineLast = FALSE
+  Deadline = 0
+  PassedMeansNone = FALSE
 INVARIANT SucceedsIffSomeAccepts
 INVARIANT WinnerAccepted
 INVARIANT HonestFailure
